@@ -13,6 +13,7 @@ Oracle (two levels, both differential against the same code):
 
 import collections
 import copy
+import re
 
 from .. import workload
 from ..common import NEUTRAL_WORLD, OpView, cached_run, done, event_digest, run, tree_bytes, violation
@@ -282,14 +283,31 @@ def _alone_request(sc, index):
     return {"files": op["files"], "world": dict(NEUTRAL_WORLD), "cpu": 60, "ops": [rt_op]}
 
 
+_TMP_NAME = re.compile(r"(<R>/tmp/)[A-Za-z0-9_]+")
+
+
+def _no_tmp_names(value):
+    """Temp-file names are drawn from the world's seeded sequence and differ
+    between the history and the reference execution; they are not results."""
+    if isinstance(value, str):
+        return _TMP_NAME.sub(r"\1<tmp>", value)
+    if isinstance(value, dict):
+        return {k: _no_tmp_names(v) for k, v in value.items()}
+    if isinstance(value, list):
+        return [_no_tmp_names(v) for v in value]
+    return value
+
+
 def _op_signature(op_result):
-    return {
-        "exit": op_result.get("exit"),
-        "exc": op_result.get("exc"),
-        "stdout": op_result.get("stdout"),
-        "stderr": op_result.get("stderr"),
-        "api": op_result.get("api"),
-    }
+    return _no_tmp_names(
+        {
+            "exit": op_result.get("exit"),
+            "exc": op_result.get("exc"),
+            "stdout": op_result.get("stdout"),
+            "stderr": op_result.get("stderr"),
+            "api": op_result.get("api"),
+        }
+    )
 
 
 def evaluate(sc):
@@ -368,8 +386,8 @@ def evaluate(sc):
         if op["kind"].startswith("cli") and len(op["docs"]) >= 2:
             stats["multi_file_op"] += 1
             view = OpView(want)
-            if view.exc or any(marker in view.stderr for marker in ("Unexpected Error", "Configuration Error")):
-                continue  # the whole operation was cut short; nothing per file to compare
+            if view.exc or any(marker in view.stderr for marker in ("Unexpected Error", "Configuration Error", " encountered while scanning ")):
+                continue  # the operation was cut short at the failing file (no --continue-on-error)
             for name in op["docs"]:
                 solo_request = {
                     "files": {name: op["files"][name]},
@@ -383,7 +401,7 @@ def evaluate(sc):
                     stats["solo_unusable"] += 1
                     continue
                 solo_view = OpView(solo_reply["result"]["ops"][0])
-                if solo_view.exc or any(marker in solo_view.stderr for marker in ("Unexpected Error", "Configuration Error")):
+                if solo_view.exc or any(marker in solo_view.stderr for marker in ("Unexpected Error", "Configuration Error", " encountered while scanning ")):
                     continue
                 if view.per_file(name) != solo_view.per_file(name):
                     position = op["docs"].index(name)
